@@ -371,30 +371,31 @@ func (t *Teamserver) Start() {
 			HandlerData.HostRotation = Data["HostRotation"].(string)
 			HandlerData.PortBind = Data["PortBind"].(string)
 			HandlerData.UserAgent = Data["UserAgent"].(string)
-			HandlerData.Headers = strings.Split(Data["Headers"].(string), ", ")
-			HandlerData.Uris = strings.Split(Data["Uris"].(string), ", ")
+			HandlerData.Headers = storedList(Data["Headers"])
+			HandlerData.Uris = storedList(Data["Uris"])
 			HandlerData.BehindRedir = t.Profile.Config.Demon.TrustXForwardedFor
+
+			/* the rest of what the listener was configured with */
+			if val, ok := Data["KillDate"].(float64); ok {
+				HandlerData.KillDate = int64(val)
+			}
+			HandlerData.WorkingHours, _ = Data["WorkingHours"].(string)
+			HandlerData.Methode, _ = Data["Methode"].(string)
+			HandlerData.PortConn, _ = Data["PortConn"].(string)
+			HandlerData.HostHeader, _ = Data["HostHeader"].(string)
+			HandlerData.Proxy.Enabled, _ = Data["Proxy Enabled"].(bool)
+			HandlerData.Proxy.Type, _ = Data["Proxy Type"].(string)
+			HandlerData.Proxy.Host, _ = Data["Proxy Host"].(string)
+			HandlerData.Proxy.Port, _ = Data["Proxy Port"].(string)
+			HandlerData.Proxy.Username, _ = Data["Proxy Username"].(string)
+			HandlerData.Proxy.Password, _ = Data["Proxy Password"].(string)
 
 			HandlerData.Secure = false
 			if Data["Secure"].(string) == "true" {
 				HandlerData.Secure = true
 			}
 
-			if Data["Response Headers"] != nil {
-
-				switch Data["Response Headers"].(type) {
-
-				case string:
-					HandlerData.Response.Headers = strings.Split(Data["Response Headers"].(string), ", ")
-					break
-
-				default:
-					for _, s := range Data["Response Headers"].([]interface{}) {
-						HandlerData.Response.Headers = append(HandlerData.Response.Headers, s.(string))
-					}
-
-				}
-			}
+			HandlerData.Response.Headers = storedList(Data["Response Headers"])
 
 			/* also ignore if we already have a listener running */
 			if err := t.ListenerStart(handlers.LISTENER_HTTP, HandlerData); err != nil && err.Error() != "listener already exists" {
@@ -493,6 +494,30 @@ func (t *Teamserver) Start() {
 	logger.Debug("Wait til the server shutdown")
 
 	<-ServerFinished
+}
+
+// storedList reads a list of strings of a stored listener configuration: a JSON array, or (as
+// older databases have it) one string joined with ", "; no entries give no list, not one empty entry
+func storedList(val any) []string {
+	var list []string
+
+	switch v := val.(type) {
+
+	case string:
+		if len(v) > 0 {
+			list = strings.Split(v, ", ")
+		}
+
+	case []interface{}:
+		for _, s := range v {
+			if str, ok := s.(string); ok {
+				list = append(list, str)
+			}
+		}
+
+	}
+
+	return list
 }
 
 func (t *Teamserver) handleRequest(id string) {
